@@ -6,3 +6,88 @@ Open Scope N_scope.
 Theorem c19_placeholder_bits_of_byte_length : forall b, length (bits_of_byte b) = 8%nat.
 Proof. reflexivity. Qed.
 Print Assumptions c19_placeholder_bits_of_byte_length.
+
+(* ---- part B: framing ---- *)
+(* NAL unit streams between start-code framing (H.264 Annex B) and 4-byte
+   length framing (ISO 14496-15, "AVCC"): avc.IterateNaluAnnexb /
+   IterateNaluAvcc / Annexb2Avcc / Avcc2Annexb / IterateNaluStartCode and
+   h2645.JoinNaluAvcc.  A stream is [join_annexb l ++ repeat 0 z]: every unit u
+   comes with the number k >= 2 of zero bytes of its start code (k = 2: 00 00 01,
+   k = 3: 00 00 00 01, larger k: leading_zero_8bits / the trailing_zero_8bits of
+   the unit in front), z zero bytes follow the last unit.  [sc_ok (k, u)] is
+   2 <= k and nal_wf u = what emulation prevention guarantees: no 00 00 01
+   inside u and the last byte of u is not 00. *)
+From Lal Require Import Codec.CodecNalFraming Codec.CodecNalFramingProofs.
+
+(* the unit list survives Annex B -> units, Annex B -> AVCC, AVCC -> units,
+   AVCC -> Annex B (4-byte codes) -> units, for every mix of start code lengths
+   and any number of trailing zero bytes (the code after the
+   c19_annexb_trailing_zeros fix) *)
+Theorem c19_framing : forall (l : list (nat * bytes)) (z : nat),
+  l <> [] -> Forall sc_ok l -> Forall len32_ok l ->
+  let nals := map snd l in
+  let s := join_annexb l ++ repeat 0 z in
+  iterate_nalu_annexb s = (nals, None)
+  /\ annexb2avcc s = (join_nalu_avcc nals, None)
+  /\ iterate_nalu_avcc (join_nalu_avcc nals) = (nals, None)
+  /\ avcc2annexb (join_nalu_avcc nals) = (annexb_join4 nals, None)
+  /\ iterate_nalu_annexb (annexb_join4 nals) = (nals, None).
+Proof. exact framing_all. Qed.
+Print Assumptions c19_framing.
+
+(* trailing_zero_8bits after EVERY unit: they are absorbed into the next start
+   code (or dropped after the last unit) *)
+Theorem c19_framing_zeros_after_every_unit : forall l : list (nat * bytes * nat),
+  l <> [] -> Forall sc_tz_ok l ->
+  iterate_nalu_annexb (join_annexb_tz l) = (map (fun x => snd (fst x)) l, None).
+Proof. exact iterate_annexb_join_tz. Qed.
+Print Assumptions c19_framing_zeros_after_every_unit.
+
+(* length framing needs nothing of the unit contents: non-empty, below 2^32 *)
+Theorem c19_framing_avcc : forall nals : list bytes,
+  nals <> [] -> Forall avcc_ok nals ->
+  iterate_nalu_avcc (join_nalu_avcc nals) = (nals, None)
+  /\ avcc2annexb (join_nalu_avcc nals) = (annexb_join4 nals, None).
+Proof. intros nals H1 H2. split; [apply iterate_avcc_join|apply avcc2annexb_join]; assumption. Qed.
+Print Assumptions c19_framing_avcc.
+
+(* the pinned tree handed nals[start:] to the handler for the last unit:
+   trailing zero bytes ended up inside the unit (and in its AVCC length) *)
+Theorem c19_framing_trailing_zeros_refuted :
+  exists l z, l <> [] /\ Forall sc_ok l /\
+    iterate_nalu_annexb_pinned (join_annexb l ++ repeat 0 z) <> (map snd l, None).
+Proof. exact iterate_annexb_pinned_refuted. Qed.
+Print Assumptions c19_framing_trailing_zeros_refuted.
+
+(* ... and was right exactly when nothing follows the last unit *)
+Theorem c19_framing_pinned_without_trailing_zeros : forall l : list (nat * bytes),
+  l <> [] -> Forall sc_ok l -> iterate_nalu_annexb_pinned (join_annexb l) = (map snd l, None).
+Proof. exact iterate_annexb_pinned_join. Qed.
+Print Assumptions c19_framing_pinned_without_trailing_zeros.
+
+(* IterateNaluStartCode: position and length (zero bytes + 01) of the first start code *)
+Theorem c19_framing_start_code : forall u k r, nal_wf u -> (2 <= k)%nat ->
+  iterate_nalu_start_code (u ++ repeat 0 k ++ 1 :: r) 0 = Some (lenN u, N.of_nat (S k)).
+Proof. exact start_code_found. Qed.
+Print Assumptions c19_framing_start_code.
+
+(* the loops of the model never run out of fuel: the results above and the
+   correspondence runs are about the real control flow, for every input *)
+Theorem c19_framing_total : forall nals,
+  snd (iterate_nalu_annexb nals) <> Some err_out_of_fuel
+  /\ snd (iterate_nalu_avcc nals) <> Some err_out_of_fuel.
+Proof. intros nals. split; [apply iterate_annexb_total|apply iterate_avcc_total]. Qed.
+Print Assumptions c19_framing_total.
+
+(* non-vacuity: a stream with 3-, 4- and 6-byte start codes, an emulation
+   prevention byte, and three trailing zero bytes *)
+Example c19_framing_nonvacuous :
+  (example_units <> [] /\ Forall sc_ok example_units /\ Forall len32_ok example_units)
+  /\ join_annexb example_units ++ repeat 0 3
+     = [0;0;0;1; 103;100;0;40; 0;0;1; 104;0;0;3;1;0;1;238; 0;0;0;0;0;1; 101; 0;0;0]
+  /\ iterate_nalu_annexb (join_annexb example_units ++ repeat 0 3)
+     = ([[103;100;0;40]; [104;0;0;3;1;0;1;238]; [101]], None)
+  /\ fst (annexb2avcc (join_annexb example_units ++ repeat 0 3))
+     = [0;0;0;4; 103;100;0;40; 0;0;0;8; 104;0;0;3;1;0;1;238; 0;0;0;1; 101].
+Proof. split; [exact example_units_ok|]. repeat split. Qed.
+(* ---- end of part B ---- *)
